@@ -640,6 +640,11 @@ func c43Repository(t *testing.T, rec *kit.Rec) {
 		cur = open(CompressionOff)
 		sess(second, true)
 		sess([][]byte{rng.Bytes(2_000_000), rng.Bytes(10), rng.Bytes(1_500_000), rng.Bytes(10)}, false)
+		// one pack that holds the SAME blob twice (storeDuplicate within one session; the small
+		// packers are merged on flush): a request for that blob must still be answered exactly once
+		// (seeded change C43-2)
+		twice := rng.Bytes(rng.Range(100, 5000))
+		sess([][]byte{twice, rng.Bytes(300), twice, rng.Bytes(20)}, true)
 		repo = open(CompressionAuto) // the reader sees all packs
 		f := &fixture{be: be, repo: repo, packs: map[restic.ID]pack.Blobs{}, copies: map[restic.BlobHandle]map[restic.ID]bool{}, data: map[restic.ID][]byte{}}
 		st := be.Snapshot()
